@@ -37,13 +37,35 @@
 //!    key name, another in-flight request's MAC, no request MAC, stale time, empty MAC) never do;
 //!  * `panic`.
 //! Base requests vary what hickory's client helpers never produce: header bits RD/CD/AD/TC (and
-//! the reserved Z bit), EDNS OPT (version 0; payload sizes; DO) right before the TSIG, 0-2
+//! the reserved Z bit), EDNS right before the TSIG, 0-2
 //! prerequisites of every RFC 2136 3.2 form in satisfied and unsatisfied variants (generated
 //! against the known zone content), 1-3 update RRs, an IXFR-style SOA in the authority section
 //! of AXFR queries. Every clause runs for every base request. A reply-clause alarm is attributed
 //! to the smallest responsible request feature by re-running the clause on twins of the request
-//! that carry no / one feature (sig suffix `:req=<feature>`).
-//! Don't-cares: |now - time| == fudge exactly (hickory's range is half-open, RFC not explicit);
+//! that carry no / one / two feature(s) (sig suffix `:req=<feature>[+<feature>]`).
+//! EDNS of signed requests (UPDATE and AXFR alike; what the server signs is the reply WITH the
+//! OPT it answers with, which differs from the request's OPT as soon as that carries anything
+//! beyond payload size and DO): no OPT / OPT version 0 with payload below 512, 512, 1232, 4096,
+//! 65535, other; DO on/off; the 15 Z flag bits; options NSID request, COOKIE (client part only),
+//! PADDING, EXPIRE, TCP-KEEPALIVE, DAU, CLIENT-SUBNET, unassigned codes with random data, 2-8 of
+//! them in one OPT. (a) 60% of the base requests carry a random such OPT and go through every
+//! clause; (b) EDNS sweep: every base request is re-sent (genuine, offset 0, reply clause without
+//! flips) with each shape class (`basegen::edns_sweep`, ~23 shapes). Server side: every second
+//! server has an NSID configured (`Catalog::set_nsid`, same on the leak twin); a shape that asks
+//! for the NSID goes to the server with and without it. Counters `edns/verified/<kind>/<class>`.
+//! A request whose advertised payload is below 512 cannot be produced by hickory's client model
+//! (clamped on encoding): signed by `reftsig`, reply checked like the Z-bit ones.
+//! Transfer policies: every AXFR base request is also sent, correctly signed (as generated /
+//! without OPT / with options), to the same zone under `AllowAll` (must transfer; IF the reply
+//! carries a TSIG it must verify; sigs `...:axfr@allow-all:...`) and under `Deny` (no zone data:
+//! `only-if` / `policy-deny:data-leaked`).
+//! EDNS version != 0 is a separate case outside the clauses (`badvers_probe`): the catalog
+//! answers BADVERS (RFC 6891 6.1.3) before any zone handler / TSIG is looked at; only counted
+//! (`edns-version/*`), plus: no panic, and a reply that does carry a TSIG must verify.
+//! Don't-cares: under `AllowAll` hickory never looks at the TSIG of a transfer request and sends
+//! the zone unsigned (the statement speaks of the signed-only policy; RFC 8945 5.2 would have
+//! the reply carry a TSIG): counted under dontcare/allow-all-reply-unsigned, not judged;
+//! |now - time| == fudge exactly (hickory's range is half-open, RFC not explicit);
 //! header-ID flips (covered by the original-ID field: the reference itself says valid);
 //! bits hickory's `Header`/`Record` model does not carry and that leave the parsed message equal
 //! are reported under their own region signature, never silently dropped (see report);
